@@ -1,11 +1,11 @@
 package main
 
 import (
-	"os"
-	"go/ast"
 	"fmt"
+	"go/ast"
 	"go/token"
 	"go/types"
+	"os"
 	"sort"
 	"strings"
 
@@ -269,6 +269,9 @@ func (e *Enc) run() {
 	}
 	if e.Ct != nil && e.Ct.Stateless && e.pass == 2 {
 		e.statelessObligations()
+	}
+	if e.Ct != nil && e.Ct.Trusted == "" && e.pass == 2 {
+		e.ghostFrameObligations()
 	}
 	order := e.topoOrder()
 	for _, b := range order {
@@ -1283,7 +1286,6 @@ func (e *Enc) backOrdinal(li *loopInfo, from *ssa.BasicBlock) int {
 	return 0
 }
 
-
 // candidate is an auto-proposed invariant about one loop-head phi.
 type candidate struct {
 	phi   *ssa.Phi
@@ -1403,7 +1405,6 @@ func (e *Enc) obligeCand(kind, anchor string, pos token.Pos, reach, cond, key st
 		e.obls[len(e.obls)-1].Detail = key
 	}
 }
-
 
 // phiMattersForSafety: the phi (possibly through arithmetic, conversions and other phis) is used as an index, a
 // slice bound, a make size, an indexed/sliced operand, or an argument of a call (which may have a precondition).
@@ -1602,18 +1603,25 @@ func (e *Enc) remapLoops() {
 func (e *Enc) ghostCellsOf(c ssa.CallInstruction, lm *loopMods) {
 	callee, key := e.calleeOf(c)
 	ct := e.contractFor(key)
-	if ct == nil {
-		return
-	}
 	pkg := e.Pkg
 	if callee != nil && callee.Pkg != nil {
 		pkg = callee.Pkg
 	}
-	for _, mc := range ct.Modifies {
-		id, ok := mc.Expr.(*ast.Ident)
-		if !ok {
-			continue
+	names := map[string]bool{}
+	if ct != nil {
+		for _, mc := range ct.Modifies {
+			if id, ok := mc.Expr.(*ast.Ident); ok {
+				names[id.Name] = true
+			}
 		}
+	}
+	var sorted []string
+	for n := range names {
+		sorted = append(sorted, n)
+	}
+	sort.Strings(sorted)
+	for _, name := range sorted {
+		id := &ast.Ident{Name: name}
 		gt, isGhost := e.CS.Ghosts[id.Name]
 		if !isGhost {
 			continue
@@ -1636,5 +1644,30 @@ func (e *Enc) ghostCellsOf(c ssa.CallInstruction, lm *loopMods) {
 			lm.cells[s] = append(lm.cells[s], [3]string{e.ghostObj(id.Name), e.M.ilit(0), e.M.ilit(slots(t))})
 		}
 		lm.ghostCells = true
+	}
+}
+
+// ghostFrameObligations: every ghost variable that a call site of this function updates (the callee's contract lists it
+// under `modifies`) is listed in this function's own `modifies`. Otherwise a caller of this function would keep the old
+// value of the ghost variable while assuming what this function's ensures clauses say about the new one.
+func (e *Enc) ghostFrameObligations() {
+	declared := map[string]bool{}
+	for _, mc := range e.Ct.Modifies {
+		if id, ok := mc.Expr.(*ast.Ident); ok {
+			declared[id.Name] = true
+		}
+	}
+	var names []string
+	for g := range e.directGhostMods(e.Fn) {
+		names = append(names, g)
+	}
+	sort.Strings(names)
+	for _, g := range names {
+		o := &Obligation{Name: e.fnName + "#ghost-frame@" + g, Func: e.fnName, Kind: "ghost-frame", Backend: "structural", OK: declared[g],
+			Descr: "the ghost variable " + g + ", updated at a call site of this function, is listed in its modifies clause"}
+		if !o.OK {
+			o.Detail = "a callee's contract updates the ghost variable " + g + " but the contract of " + e.fnName + " does not list it under modifies: callers would keep its old value"
+		}
+		e.obls = append(e.obls, o)
 	}
 }
